@@ -100,7 +100,11 @@ trait CharExt: Sized {
 
 impl CharExt for char {
     fn has_casing(self) -> bool {
-        self.is_lowercase() != self.is_uppercase()
+        // Characters like the titlecase digraph `ǅ` are neither lowercase nor uppercase, but are
+        // nonetheless related to other characters by case folding.
+        (self.is_lowercase() != self.is_uppercase())
+            || !self.to_lowercase().eq([self])
+            || !self.to_uppercase().eq([self])
     }
 }
 
